@@ -353,6 +353,6 @@ mut("c20_order_dependent_side_effect", "C20", [
 
 import sys as _sys
 
-LOADED_BEFORE_TRACK = "chartparse.track" not in _sys.modules
+LOADED_BEFORE_INSTRUMENT = "chartparse.instrument" not in _sys.modules
 '''),
 ], "a module-level value that depends on which module was imported first")
